@@ -51,6 +51,15 @@ func applyModel(root *dm.Node, t dm.Tree, op histOp) bool {
 		return ok
 	case "delete", "delete-held":
 		return dm.DeleteAt(root, t, op.Path)
+	case "upsert-held":
+		pn, pt, ok := dm.ParentOf(root, t, op.Path)
+		if !ok {
+			return false
+		}
+		if _, _, there := dm.Resolve(root, t, op.Path); !there {
+			return false
+		}
+		return dm.MergeContent(pn, pt, op.Src, dm.Upsert, false, "") == nil
 	case "delete2":
 		return dm.DeleteAt(root, t, op.Path) && dm.DeleteAt(root, t, op.Path2)
 	case "replace":
@@ -197,6 +206,22 @@ func applyLib(mm *meta.Module, root *dm.Node, store dm.Store, model dm.Tree, op 
 		t := held.sel
 		held.sel = nil
 		return t.Delete()
+	case "upsert-held":
+		// entries written through a selection of the list that was taken before the list changed
+		if held.sel == nil || held.path != findPath(op.Path) {
+			return fmt.Errorf("harness: no selection held for %s", findPath(op.Path))
+		}
+		t := held.sel
+		held.sel = nil
+		pn, _, _ := dm.ParentOf(root, model, op.Path)
+		if srcKind == "json" {
+			src, err := nodeutil.ReadJSON(dm.ToJSON("", pn, op.Src, dm.JSONStyle{Num64AsString: true}))
+			if err != nil {
+				return err
+			}
+			return t.UpsertFrom(src)
+		}
+		return t.UpsertFrom(dm.NewRSList(pn, pn.Child(op.Path[len(op.Path)-1].Name), dm.CloneTree(op.Src)))
 	case "upsert":
 		src, err := histSource(srcKind, root, op.Src)
 		if err != nil {
@@ -306,21 +331,25 @@ func histRun(prop string) func(c histCase, o *hx.Obs) {
 		model := dm.CloneTree(c.Initial)
 		opts := dm.DiffOpts{ListsAsSets: !store.KeepsOrder(), IgnoreEmptyList: true, ZeroIsUnset: store.ZeroIsUnset()}
 		deletes, afterDelete, nestedDelete, switches := 0, false, false, 0
+		usedHeld := false
 		held := &histHeld{}
 		for i, op := range c.Ops {
 			before := dm.CloneTree(model)
-			if op.Kind == "delete-held" && (held.sel == nil || held.path != findPath(op.Path)) {
+			if (op.Kind == "delete-held" || op.Kind == "upsert-held") && (held.sel == nil || held.path != findPath(op.Path)) {
 				continue // its hold step was skipped
 			}
 			if !applyModel(root, model, op) {
 				model = before
-				if op.Kind == "delete-held" {
+				if op.Kind == "delete-held" || op.Kind == "upsert-held" {
 					held.sel = nil // the node it was to delete is gone already
 				}
 				continue // not applicable any more (shrinking); skip on both sides
 			}
 			o.Class("op=%s", op.Kind)
-			if held.sel != nil && op.Kind != "hold" && op.Kind != "delete-held" {
+			if op.Kind == "upsert-held" {
+				usedHeld = true
+			}
+			if held.sel != nil && op.Kind != "hold" && op.Kind != "delete-held" && op.Kind != "upsert-held" {
 				if _, _, still := dm.Resolve(root, model, held.at); !still || unseats(op, held.at) {
 					held.sel = nil // the node the kept selection stands for was removed or made anew
 				}
@@ -410,7 +439,11 @@ func histRun(prop string) func(c histCase, o *hx.Obs) {
 				return
 			}
 		}
-		if prop == "C09" {
+		if prop == "C03" {
+			if usedHeld {
+				o.NonTrivial()
+			}
+		} else if prop == "C09" {
 			if switches >= 2 {
 				o.NonTrivial()
 			}
@@ -537,6 +570,101 @@ func histGen(prop string, stores []string) func(t *rapid.T) histCase {
 							}
 						}
 						heldPath = nil
+					}
+				}
+			}
+		}
+		if prop == "C03" {
+			// a selection of a whole list is kept while, through other selections, the list gets a new entry (its slice
+			// may have to move) and loses another (so that it is as long as before); then entries are upserted through
+			// the kept selection: ones that are there, the new one, the removed one and one never seen
+			var lists []dm.Path
+			for _, p := range dm.AllPaths(root, model, nil) {
+				if p[len(p)-1].Key == nil {
+					if ln, lv, ok := dm.Resolve(root, model, p); ok && ln.Kind == "list" && len(ln.Keys) > 0 {
+						if rows, _ := lv.([]interface{}); len(rows) >= 1 {
+							lists = append(lists, p)
+						}
+					}
+				}
+			}
+			if len(lists) > 0 {
+				listPath := lists[rapid.IntRange(0, len(lists)-1).Draw(t, "held-list")]
+				ln, lv, _ := dm.Resolve(root, model, listPath)
+				rows, _ := lv.([]interface{})
+				keyOf := func(e dm.Tree) []string {
+					var key []string
+					for _, k := range ln.Keys {
+						key = append(key, e[k].(string))
+					}
+					return key
+				}
+				have := map[string]bool{}
+				for _, r := range rows {
+					have[strings.Join(keyOf(r.(dm.Tree)), "\x00")] = true
+				}
+				var fresh []dm.Tree
+				for _, e := range append(dm.GenEntries(t, ln, to), dm.GenEntries(t, ln, to)...) {
+					if k := strings.Join(keyOf(e.(dm.Tree)), "\x00"); !have[k] {
+						have[k] = true
+						fresh = append(fresh, e.(dm.Tree))
+					}
+				}
+				fragment := func(entries []interface{}) dm.Tree {
+					src := dm.Tree{}
+					cur, sn := src, root
+					for i, seg := range listPath {
+						d := sn.Child(seg.Name)
+						if i == len(listPath)-1 {
+							cur[seg.Name] = entries
+							break
+						}
+						if d.Kind == "list" {
+							e := dm.Tree{}
+							for j, k := range d.Keys {
+								e[k] = seg.Key[j]
+							}
+							cur[seg.Name] = []interface{}{e}
+							cur = e
+						} else {
+							sub := dm.Tree{}
+							cur[seg.Name] = sub
+							cur = sub
+						}
+						sn = d
+					}
+					return src
+				}
+				ops := []histOp{{Kind: "hold", Path: listPath}}
+				var through []interface{}
+				nAdd := rapid.IntRange(0, 2).Draw(t, "added-meanwhile")
+				for i := 0; i < nAdd && i < len(fresh); i++ {
+					ops = append(ops, histOp{Kind: "upsert", Src: fragment([]interface{}{dm.Clone(fresh[i])})})
+					if rapid.Bool().Draw(t, "again-through-held") {
+						through = append(through, dm.Clone(fresh[i]))
+					}
+				}
+				for i := 0; i < rapid.IntRange(0, 2).Draw(t, "removed-meanwhile") && i < len(rows); i++ {
+					gone := rows[rapid.IntRange(0, len(rows)-1).Draw(t, "gone")].(dm.Tree)
+					ops = append(ops, histOp{Kind: "delete", Path: append(append(dm.Path{}, listPath[:len(listPath)-1]...), dm.Seg{Name: ln.Name, Key: keyOf(gone)})})
+					if rapid.Bool().Draw(t, "back-through-held") {
+						through = append(through, dm.Clone(gone))
+					}
+				}
+				for _, r := range rows {
+					if rapid.IntRange(0, 2).Draw(t, "existing-through-held") == 0 {
+						through = append(through, dm.Clone(r))
+					}
+				}
+				if len(fresh) > nAdd && rapid.Bool().Draw(t, "new-through-held") {
+					through = append(through, dm.Clone(fresh[len(fresh)-1]))
+				}
+				if len(through) > 0 {
+					ops = append(ops, histOp{Kind: "upsert-held", Path: listPath, Src: dm.Tree{ln.Name: through}})
+					for _, op := range ops {
+						if applyModel(root, model, op) {
+							c.Ops = append(c.Ops, op)
+						}
 					}
 				}
 			}
